@@ -270,6 +270,14 @@ struct HistEngine : Engine {
 		const Cfg &c = cfgs[ci];
 		p.par["cfg"] = std::to_string(ci);
 		std::string z1 = zones[r.below(sizeof(zones) / sizeof(*zones))], z2 = zones[r.below(sizeof(zones) / sizeof(*zones))];
+		{
+			const char *a, *b;
+			inv::zone_pair(r, a, b);
+			if (r.chance(1, 2)) {
+				z1 = a;
+				z2 = b;
+			}
+		}
 		p.argv.push_back(c.tool);
 		for (auto &o : c.opts) {
 			if (o == "@Z") {
@@ -311,9 +319,18 @@ struct HistEngine : Engine {
 		std::vector<std::string> vals;
 		if (c.vkind == 3) {
 			/* dzone: zones x date-times */
-			size_t nz = (size_t)r.range(1, 3), nt = (size_t)r.range(1, 4);
+			size_t nz = (size_t)r.range(1, 4), nt = (size_t)r.range(1, 4);
 			for (size_t i = 0; i < nz; i++) {
 				std::string z = zones[r.below(sizeof(zones) / sizeof(*zones))];
+				if (i + 1 < nz && r.chance(1, 3)) {
+					/* a name and, right behind it, one that extends it */
+					const char *a, *b;
+					inv::zone_pair(r, a, b);
+					p.argv.push_back(a);
+					embed_zone(p, a);
+					z = b;
+					i++;
+				}
 				p.argv.push_back(z);
 				embed_zone(p, z);
 			}
